@@ -78,6 +78,12 @@ class Printer:
             for c in fr.cols:
                 if c.name.lower() == name and (tag is None or (c.tag is not None and c.tag.lower() == tag)):
                     hits.append((alias, c))
+        if not hits and tag is not None and getattr(self, 'frame_name', None) is not None and tag == self.frame_name.lower():
+            # SubSelectStep(table_name=X): inside the step's query the dataframe is the table called X
+            for alias, fr in self.frames:
+                for c in fr.cols:
+                    if c.name.lower() == name:
+                        hits.append((alias, c))
         if len(hits) == 1:
             return hits[0]
         if not hits:
@@ -469,6 +475,7 @@ class Interp:
         if not isinstance(query, A.Select):
             raise PlanExecError(where, f'query over a dataframe is a {type(query).__name__}')
         p = Printer(self, frames=frames)
+        p.frame_name = table_name
         p.frames_from = ', '.join(f'temp.{q(fr.table)} AS {al}' for al, fr in frames)
         sql = p.select(query)
         self.trace.append((where, 'frame', sql))
